@@ -102,6 +102,41 @@ Lemma wf_mapM_ems h cs es : wf h -> mapM (nth_error (ems h)) cs = Some es ->
   Forall (fun e => locs_ok h (e_mem e)) es.
 Proof. intros W H. eapply mapM_nth_error_P; [apply (wf_ems _ W)|exact H]. Qed.
 
+Lemma times_of_ok h tl : tl < length (tlists h) -> exists ts, times_of h tl = Some ts.
+Proof.
+  intros H. unfold times_of. destruct (nth_error (tlists h) tl) eqn:E; eauto.
+  apply nth_error_None in E. lia.
+Qed.
+
+Lemma wf_tc_tl_lt h t tc : wf h -> nth_error (tcs h) t = Some tc -> tc_tl tc < length (tlists h).
+Proof. intros W E. pose proof (Forall_nth_error _ _ _ _ (wf_tc_tl _ W) E) as X. exact X. Qed.
+Lemma wf_tr_tl_lt h k tr : wf h -> nth_error (trs h) k = Some tr -> tr_tl tr < length (tlists h).
+Proof. intros W E. pose proof (Forall_nth_error _ _ _ _ (wf_tr_tl _ W) E) as X. exact X. Qed.
+Lemma wf_tvar_lt h j tl : wf h -> nth_error (tvars h) j = Some tl -> tl < length (tlists h).
+Proof. intros W E. pose proof (Forall_nth_error _ _ _ _ (wf_tvars _ W) E) as X. exact X. Qed.
+
+Lemma wf_build_tc h es ts :
+  wf h -> Forall (fun e => locs_ok h (e_mem e)) es -> wf (fst (build_tc h es ts)).
+Proof.
+  intros W H. unfold build_tc. destruct (copy_ems h es) as [h1|] eqn:Ec; simpl; auto.
+  destruct (wf_copy_ems h es h1 W H Ec) as [W1 L1].
+  destruct (copy_ems_tables h es h1 Ec) as (_ & _ & _ & _ & _ & T6 & _).
+  match goal with |- context [if ?b then _ else _] => destruct b end; simpl; auto.
+  apply wf_push_tc; [apply wf_alloc_tl; auto| |].
+  - cbn [tc_ems alloc_tl ems with_tlists]. unfold new_cids. apply Forall_forall. intros x Hx.
+    apply in_seq in Hx. lia.
+  - cbn [tc_tl]. rewrite <- T6. apply tlists_alloc_tl.
+Qed.
+
+Lemma wf_build_tr h vs ts : wf h -> wf (fst (build_tr h vs ts)).
+Proof.
+  intros W. unfold build_tr. destruct (same_dims vs); simpl; auto.
+  match goal with |- context [if ?b then _ else _] => destruct b end; simpl; auto.
+  apply wf_push_tr; [apply wf_alloc_tl, wf_alloc; auto| |].
+  - cbn [tr_drops]. apply (locs_ok_new h vs (length vs)). lia.
+  - cbn [tr_tl]. apply (tlists_alloc_tl (alloc h vs) ts).
+Qed.
+
 Theorem wf_step h o : wf h -> wf (fst (exec h o)).
 Proof.
   intros W. destruct_op o; simpl.
@@ -111,7 +146,7 @@ Proof.
     destruct (obj_of h l) as [s|] eqn:Es; simpl; auto.
     assert (Hs : s < length (store h)).
     { unfold obj_of in Es. pose proof (Forall_nth_error _ _ _ _ (wf_objs _ W) Es) as X. exact X. }
-    destruct W as [W1 W2 W3 W4 W5 W6 W7]. constructor; simpl; auto.
+    destruct W as [W1 W2 W3 W4 W5 W6 W7 W8 W9 W10]. constructor; simpl; auto.
     + apply Forall_app; split; auto.
     + unfold locs_ok; simpl. rewrite app_length; simpl. apply Forall_app; split.
       * eapply Forall_lt_mono with (f := fun x => x); [|exact W2]. lia.
@@ -151,7 +186,7 @@ Proof.
     destruct (negb (all_eqb Nat.eqb (map cls (v0 :: vs)))); [simpl; auto|].
     destruct (all_eqb dtype_eqb (map dtype_of (v0 :: vs))); hs.
     + apply wf_push_arr.
-      * destruct W as [W1 W2 W3 W4 W5 W6 W7]. constructor; hs; auto.
+      * destruct W as [W1 W2 W3 W4 W5 W6 W7 W8 W9 W10]. constructor; hs; auto.
         -- apply Forall_repoint.
            ++ rewrite app_length. eapply Forall_lt_mono with (f := fun x => x); [|exact W1]. lia.
            ++ apply Forall_forall. intros x Hx. apply in_seq in Hx. rewrite app_length. lia.
@@ -182,47 +217,44 @@ Proof.
     apply wf_with_hnd; [apply wf_alloc; auto|].
     apply locs_ok_app; [apply locs_ok_alloc, (wf_hnd _ W)|apply locs_ok_new; simpl; lia].
   - (* tcnew *) unfold exec_tcnew. destruct (mapM (nth_error (ems h)) cs) as [es|] eqn:E; simpl; auto.
-    destruct (copy_ems h es) as [h1|] eqn:Ec; simpl; auto.
-    destruct (wf_copy_ems h es h1 W (wf_mapM_ems _ _ _ W E) Ec) as [W1 L1].
-    match goal with |- context [if ?b then _ else _] => destruct b end; simpl; auto.
-    apply wf_push_tc; auto. simpl. unfold new_cids. apply Forall_forall. intros x Hx.
-    apply in_seq in Hx. lia.
+    apply wf_build_tc; auto. eapply wf_mapM_ems; eauto.
   - (* tcappend *) unfold exec_tcappend. destruct (nth_error (tcs h) t) as [tc|] eqn:Et; simpl; auto.
     destruct (nth_error (ems h) c) as [e|]; simpl; auto.
     destruct (vals_of h (e_mem e)) as [vs|]; simpl; auto.
-    apply wf_set_tc; [apply wf_new_em_vals; auto|]. hs.
-    rewrite ems_new_em_vals. apply Forall_app; split.
-    + pose proof (Forall_nth_error _ _ _ _ (wf_tcs _ W) Et) as X. simpl in X.
-      eapply Forall_lt_mono with (f := fun x => x); [|exact X]. lia.
-    + constructor; auto.
+    destruct (times_of h (tc_tl tc)) as [ts|]; simpl; auto.
+    apply wf_set_tc; [apply wf_set_tl, wf_new_em_vals; auto| |].
+    + hs. change (ems (set_tl (new_em_vals h vs) (tc_tl tc) (ts ++ [match tm with Some q => q | None => default_time ts end])))
+        with (ems (new_em_vals h vs)).
+      rewrite ems_new_em_vals. apply Forall_app; split.
+      * pose proof (Forall_nth_error _ _ _ _ (wf_tcs _ W) Et) as X. simpl in X.
+        eapply Forall_lt_mono with (f := fun x => x); [|exact X]. lia.
+      * constructor; auto.
+    + cbn [tc_tl set_tl tlists with_tlists]. rewrite length_upd. unfold new_em_vals. hs.
+      eapply wf_tc_tl_lt; eauto.
   - (* tcappend_bad *) unfold exec_tcappend_bad. destruct (nth_error (tcs h) t); simpl; auto.
   - (* tcslice *) unfold exec_tcslice. destruct (nth_error (tcs h) t) as [tc|]; simpl; auto.
+    destruct (times_of h (tc_tl tc)); simpl; auto.
     destruct (mapM (nth_error (ems h)) (slice lo hi (tc_ems tc))) as [es|] eqn:E; simpl; auto.
-    destruct (copy_ems h es) as [h1|] eqn:Ec; simpl; auto.
-    destruct (wf_copy_ems h es h1 W (wf_mapM_ems _ _ _ W E) Ec) as [W1 L1].
-    match goal with |- context [if ?b then _ else _] => destruct b end; simpl; auto.
-    apply wf_push_tc; auto. simpl. unfold new_cids. apply Forall_forall. intros x Hx.
-    apply in_seq in Hx. lia.
+    apply wf_build_tc; auto. eapply wf_mapM_ems; eauto.
   - (* tcclear *) unfold exec_tcclear. destruct (nth_error (tcs h) t); simpl; auto.
-    apply wf_set_tc; auto. constructor.
+    apply wf_set_tc; [apply wf_alloc_tl; auto|constructor|]. cbn [tc_tl]. apply tlists_alloc_tl.
   - (* trnew *) unfold exec_trnew. destruct (mapM (nth_error (hnd h)) is) as [ls|]; simpl; auto.
-    destruct (vals_of h ls) as [vs|]; simpl; auto. destruct (same_dims vs); simpl; auto.
-    match goal with |- context [if ?b then _ else _] => destruct b end; simpl; auto.
-    apply wf_push_tr; [apply wf_alloc; auto|]. simpl. apply locs_ok_new. lia.
+    destruct (vals_of h ls) as [vs|]; simpl; auto. apply wf_build_tr; auto.
   - (* trappend *) unfold exec_trappend. destruct (nth_error (trs h) k) as [tr|] eqn:Et; simpl; auto.
     destruct (nth_error (hnd h) i) as [l|]; simpl; auto.
     destruct (val_of h l) as [v|]; simpl; auto.
     destruct (mapM (val_of h) (tr_drops tr)) as [dvs|]; simpl; auto.
+    destruct (times_of h (tr_tl tr)) as [ts|]; simpl; auto.
     match goal with |- context [if ?b then _ else _] => destruct b end; simpl; auto.
-    apply wf_set_tr; [apply wf_alloc; auto|]. simpl. apply locs_ok_app.
-    + apply locs_ok_alloc. eapply wf_tr; eauto.
-    + apply locs_ok_new. simpl; lia.
+    apply wf_set_tr; [apply wf_set_tl, wf_alloc; auto| |].
+    + cbn [tr_drops]. apply locs_ok_app.
+      * apply (locs_ok_alloc h [v]). eapply wf_tr; eauto.
+      * apply (locs_ok_new h [v] 1). simpl; lia.
+    + cbn [tr_tl set_tl tlists with_tlists]. rewrite length_upd. hs. eapply wf_tr_tl_lt; eauto.
   - (* trappend_bad *) unfold exec_trappend_bad. destruct (nth_error (trs h) k); simpl; auto.
   - (* trslice *) unfold exec_trslice. destruct (nth_error (trs h) k) as [tr|]; simpl; auto.
     destruct (vals_of h (slice lo hi (tr_drops tr))) as [vs|]; simpl; auto.
-    destruct (same_dims vs); simpl; auto.
-    match goal with |- context [if ?b then _ else _] => destruct b end; simpl; auto.
-    apply wf_push_tr; [apply wf_alloc; auto|]. simpl. apply locs_ok_new. lia.
+    destruct (times_of h (tr_tl tr)); simpl; auto. apply wf_build_tr; auto.
   - (* trget *) unfold exec_trget. destruct (nth_error (trs h) k) as [tr|] eqn:Et; simpl; auto.
     destruct (nth_error (tr_drops tr) i) as [l|] eqn:El; simpl; auto.
     apply wf_push_hnd; auto. eapply locs_ok_nth; [eapply wf_tr; eauto|eauto].
@@ -230,9 +262,34 @@ Proof.
     apply wf_with_tls; auto. apply Forall_app; split; [apply (wf_tls _ W)|].
     constructor; auto. eapply mapM_nth_error_lt; eauto.
   - (* tlremove *) unfold exec_tlremove. destruct (nth_error (tls h) l) as [ks|] eqn:E; simpl; auto.
-    destruct (mapM (nth_error (trs h)) ks); simpl; auto.
+    destruct (mapM (nth_error (trs h)) ks) as [trl|]; simpl; auto.
+    destruct (mapM (fun tr => times_of h (tr_tl tr)) trl); simpl; auto.
     apply wf_with_tls; auto. apply Forall_upd; [apply (wf_tls _ W)|].
     apply Forall_filter_by. pose proof (Forall_nth_error _ _ _ _ (wf_tls _ W) E) as X. exact X.
+  - (* tccopy *) unfold exec_tccopy. destruct (nth_error (tcs h) t) as [tc|]; simpl; auto.
+    destruct (times_of h (tc_tl tc)); simpl; auto.
+    destruct (mapM (nth_error (ems h)) (tc_ems tc)) as [es|] eqn:E; simpl; auto.
+    apply wf_build_tc; auto. eapply wf_mapM_ems; eauto.
+  - (* tcnewl *) unfold exec_tcnewl. destruct (mapM (nth_error (ems h)) cs) as [es|] eqn:E; simpl; auto.
+    destruct (nth_error (tvars h) j) as [tl|]; simpl; auto.
+    destruct (times_of h tl); simpl; auto.
+    apply wf_build_tc; auto. eapply wf_mapM_ems; eauto.
+  - (* trcopy *) unfold exec_trcopy. destruct (nth_error (trs h) k) as [tr|]; simpl; auto.
+    destruct (vals_of h (tr_drops tr)); simpl; auto.
+    destruct (times_of h (tr_tl tr)); simpl; auto. apply wf_build_tr; auto.
+  - (* trnewl *) unfold exec_trnewl. destruct (mapM (nth_error (hnd h)) is) as [ls|]; simpl; auto.
+    destruct (nth_error (tvars h) j) as [tl|]; simpl; auto.
+    destruct (vals_of h ls); simpl; auto. destruct (times_of h tl); simpl; auto. apply wf_build_tr; auto.
+  - (* tlistnew *) unfold exec_tlistnew. simpl fst. apply wf_with_tvars; [apply wf_alloc_tl; auto|].
+    apply Forall_app; split.
+    + eapply Forall_lt_mono with (f := fun x => x); [|apply (wf_tvars _ W)].
+      pose proof (tlists_alloc_tl h ts). lia.
+    + constructor; auto. apply tlists_alloc_tl.
+  - (* tlistappend *) unfold exec_tlistappend. destruct (nth_error (tvars h) j) as [tl|]; simpl; auto.
+    destruct (times_of h tl); simpl; auto. apply wf_set_tl; auto.
+  - (* tlistset *) unfold exec_tlistset. destruct (nth_error (tvars h) j) as [tl|]; simpl; auto.
+    destruct (times_of h tl); simpl; auto.
+    match goal with |- context [if ?b then _ else _] => destruct b end; simpl; auto. apply wf_set_tl; auto.
 Qed.
 
 Theorem wf_run os : forall h, wf h -> wf (run h os).
@@ -261,6 +318,26 @@ Proof.
   apply IH; [apply wf_new_em_vals; auto|].
   eapply Forall_impl; [|exact H3]. intros a Ha.
   eapply Forall_lt_mono with (f := fun x => x); [|exact Ha]. apply objs_new_em_vals.
+Qed.
+
+Lemma build_tc_no_dangling h es ts :
+  wf h -> Forall (fun e => locs_ok h (e_mem e)) es -> snd (build_tc h es ts) <> Err EDangling.
+Proof.
+  intros W H. unfold build_tc. destruct (copy_ems_total h es W H) as [h1 H1]. rewrite H1.
+  match goal with |- context [if ?b then _ else _] => destruct b end; discriminate.
+Qed.
+
+Lemma build_tr_no_dangling h vs ts : snd (build_tr h vs ts) <> Err EDangling.
+Proof.
+  unfold build_tr. destruct (same_dims vs); [|discriminate].
+  match goal with |- context [if ?b then _ else _] => destruct b end; discriminate.
+Qed.
+
+Lemma mapM_ems_total h cs : wf h -> Forall (fun c => c < length (ems h)) cs ->
+  exists es, mapM (nth_error (ems h)) cs = Some es.
+Proof.
+  intros W H. apply mapM_total. intros a Ha. rewrite Forall_forall in H. specialize (H a Ha).
+  destruct (nth_error (ems h) a) eqn:E; eauto. apply nth_error_None in E. lia.
 Qed.
 
 Theorem wf_no_dangling h o : wf h -> snd (exec h o) <> Err EDangling.
@@ -329,45 +406,69 @@ Proof.
       destruct (negb (Nat.eqb (dim vj) (dim vi) || Nat.eqb (dim vj) 1)); simpl; try discriminate;
       destruct (negb (layout (cls vi) =? 0) && (layout (cls vj) =? 0)); simpl; discriminate.
   - unfold exec_tcnew. destruct (mapM (nth_error (ems h)) cs) as [es|] eqn:E; simpl; [|discriminate].
-    destruct (copy_ems_total h es W (wf_mapM_ems _ _ _ W E)) as [h1 H1]. rewrite H1.
-    match goal with |- context [if ?b then _ else _] => destruct b end; discriminate.
-  - unfold exec_tcappend. destruct (nth_error (tcs h) t) as [tc|]; [|discriminate].
+    apply build_tc_no_dangling; auto. eapply wf_mapM_ems; eauto.
+  - unfold exec_tcappend. destruct (nth_error (tcs h) t) as [tc|] eqn:Et; [|discriminate].
     destruct (nth_error (ems h) c) as [e|] eqn:Ee; [|discriminate].
-    destruct (vals_of_ok h (e_mem e) W (wf_em _ _ _ W Ee)) as [vs Hv]. rewrite Hv. discriminate.
+    destruct (vals_of_ok h (e_mem e) W (wf_em _ _ _ W Ee)) as [vs Hv]. rewrite Hv.
+    destruct (times_of_ok h (tc_tl tc) (wf_tc_tl_lt _ _ _ W Et)) as [ts Hts]. rewrite Hts. discriminate.
   - unfold exec_tcappend_bad. destruct (nth_error (tcs h) t); discriminate.
   - unfold exec_tcslice. destruct (nth_error (tcs h) t) as [tc|] eqn:Et; [|discriminate].
-    assert (exists es, mapM (nth_error (ems h)) (slice lo hi (tc_ems tc)) = Some es) as [es E].
-    { apply mapM_total. intros a Ha. apply In_slice in Ha.
-      pose proof (Forall_nth_error _ _ _ _ (wf_tcs _ W) Et) as X. simpl in X.
-      rewrite Forall_forall in X. specialize (X a Ha).
-      destruct (nth_error (ems h) a) eqn:E; eauto. apply nth_error_None in E. lia. }
-    rewrite E.
-    destruct (copy_ems_total h es W (wf_mapM_ems _ _ _ W E)) as [h1 H1]. rewrite H1.
-    match goal with |- context [if ?b then _ else _] => destruct b end; discriminate.
+    destruct (times_of_ok h (tc_tl tc) (wf_tc_tl_lt _ _ _ W Et)) as [ts Hts]. rewrite Hts.
+    destruct (mapM_ems_total h (slice lo hi (tc_ems tc)) W) as [es E].
+    { apply Forall_slice. pose proof (Forall_nth_error _ _ _ _ (wf_tcs _ W) Et) as X. exact X. }
+    rewrite E. apply build_tc_no_dangling; auto. eapply wf_mapM_ems; eauto.
   - unfold exec_tcclear. destruct (nth_error (tcs h) t); discriminate.
   - unfold exec_trnew. destruct (mapM (nth_error (hnd h)) is) as [ls|] eqn:E; simpl; [|discriminate].
     destruct (vals_of_ok h ls W (locs_ok_mapM_hnd _ _ _ W E)) as [vs Hv]. rewrite Hv.
-    destruct (same_dims vs); [|discriminate].
-    match goal with |- context [if ?b then _ else _] => destruct b end; discriminate.
+    apply build_tr_no_dangling.
   - unfold exec_trappend. destruct (nth_error (trs h) k) as [tr|] eqn:Et; [|discriminate].
     destruct (nth_error (hnd h) i) as [l|] eqn:E; [|discriminate].
     destruct (val_of_ok h l W (wf_hnd_lt _ _ _ W E)) as [v Hv]. rewrite Hv.
     destruct (vals_of_ok h (tr_drops tr) W (wf_tr _ _ _ W Et)) as [dvs Hd]. unfold vals_of in Hd. rewrite Hd.
+    destruct (times_of_ok h (tr_tl tr) (wf_tr_tl_lt _ _ _ W Et)) as [ts Hts]. rewrite Hts.
     match goal with |- context [if ?b then _ else _] => destruct b end; discriminate.
   - unfold exec_trappend_bad. destruct (nth_error (trs h) k); discriminate.
   - unfold exec_trslice. destruct (nth_error (trs h) k) as [tr|] eqn:Et; [|discriminate].
     destruct (vals_of_ok h (slice lo hi (tr_drops tr)) W) as [vs Hv];
       [apply Forall_slice; eapply wf_tr; eauto|]. rewrite Hv.
-    destruct (same_dims vs); [|discriminate].
-    match goal with |- context [if ?b then _ else _] => destruct b end; discriminate.
+    destruct (times_of_ok h (tr_tl tr) (wf_tr_tl_lt _ _ _ W Et)) as [ts Hts]. rewrite Hts.
+    apply build_tr_no_dangling.
   - unfold exec_trget. destruct (nth_error (trs h) k) as [tr|]; [|discriminate].
     destruct (nth_error (tr_drops tr) i); discriminate.
   - unfold exec_tlnew. destruct (mapM (nth_error (trs h)) ks); discriminate.
   - unfold exec_tlremove. destruct (nth_error (tls h) l) as [ks|] eqn:E; [|discriminate].
-    assert (exists ts, mapM (nth_error (trs h)) ks = Some ts) as [ts Hts].
+    assert (exists trl, mapM (nth_error (trs h)) ks = Some trl) as [trl Htrl].
     { apply mapM_total. intros a Ha.
       pose proof (Forall_nth_error _ _ _ _ (wf_tls _ W) E) as X. simpl in X.
       rewrite Forall_forall in X. specialize (X a Ha).
       destruct (nth_error (trs h) a) eqn:E2; eauto. apply nth_error_None in E2. lia. }
-    rewrite Hts. discriminate.
+    rewrite Htrl.
+    assert (exists tss, mapM (fun tr => times_of h (tr_tl tr)) trl = Some tss) as [tss Htss].
+    { apply mapM_total. intros tr Htr. apply times_of_ok.
+      pose proof (mapM_nth_error_P _ _ _ _ (wf_tr_tl _ W) Htrl) as X. rewrite Forall_forall in X. auto. }
+    rewrite Htss. discriminate.
+  - unfold exec_tccopy. destruct (nth_error (tcs h) t) as [tc|] eqn:Et; [|discriminate].
+    destruct (times_of_ok h (tc_tl tc) (wf_tc_tl_lt _ _ _ W Et)) as [ts Hts]. rewrite Hts.
+    destruct (mapM_ems_total h (tc_ems tc) W) as [es E].
+    { pose proof (Forall_nth_error _ _ _ _ (wf_tcs _ W) Et) as X. exact X. }
+    rewrite E. apply build_tc_no_dangling; auto. eapply wf_mapM_ems; eauto.
+  - unfold exec_tcnewl. destruct (mapM (nth_error (ems h)) cs) as [es|] eqn:E; [|discriminate].
+    destruct (nth_error (tvars h) j) as [tl|] eqn:Ej; [|discriminate].
+    destruct (times_of_ok h tl (wf_tvar_lt _ _ _ W Ej)) as [ts Hts]. rewrite Hts.
+    apply build_tc_no_dangling; auto. eapply wf_mapM_ems; eauto.
+  - unfold exec_trcopy. destruct (nth_error (trs h) k) as [tr|] eqn:Et; [|discriminate].
+    destruct (vals_of_ok h (tr_drops tr) W (wf_tr _ _ _ W Et)) as [vs Hv]. rewrite Hv.
+    destruct (times_of_ok h (tr_tl tr) (wf_tr_tl_lt _ _ _ W Et)) as [ts Hts]. rewrite Hts.
+    apply build_tr_no_dangling.
+  - unfold exec_trnewl. destruct (mapM (nth_error (hnd h)) is) as [ls|] eqn:E; [|discriminate].
+    destruct (nth_error (tvars h) j) as [tl|] eqn:Ej; [|discriminate].
+    destruct (vals_of_ok h ls W (locs_ok_mapM_hnd _ _ _ W E)) as [vs Hv]. rewrite Hv.
+    destruct (times_of_ok h tl (wf_tvar_lt _ _ _ W Ej)) as [ts Hts]. rewrite Hts.
+    apply build_tr_no_dangling.
+  - discriminate.
+  - unfold exec_tlistappend. destruct (nth_error (tvars h) j) as [tl|] eqn:Ej; [|discriminate].
+    destruct (times_of_ok h tl (wf_tvar_lt _ _ _ W Ej)) as [ts Hts]. rewrite Hts. discriminate.
+  - unfold exec_tlistset. destruct (nth_error (tvars h) j) as [tl|] eqn:Ej; [|discriminate].
+    destruct (times_of_ok h tl (wf_tvar_lt _ _ _ W Ej)) as [ts Hts]. rewrite Hts.
+    match goal with |- context [if ?b then _ else _] => destruct b end; discriminate.
 Qed.
